@@ -3,6 +3,7 @@ cases, samples) and what they judged (violations, skips, inconclusive notes)."""
 import hashlib
 import json
 import os
+import sys
 from collections import Counter
 
 MAX_VIOL_PER_SHARD = 400
@@ -89,7 +90,7 @@ class Report:
                 "sig": jsonable(sig or {}),
                 "case": jsonable(case if case is not None else self.current_case),
                 "extra": jsonable(extra) if extra is not None else None,
-                "env": {"PYTHONHASHSEED": os.environ.get("PYTHONHASHSEED", "")},
+                "env": {"PYTHONHASHSEED": os.environ.get("PYTHONHASHSEED", ""), "python_optimize": int(sys.flags.optimize)},
             })
 
     def inconclusive(self, why):
